@@ -130,3 +130,12 @@ Definition s_tonumber_base (l : list Z) (base : Z) : option Z :=
   | [] => if 0 <? n then Some (wrap64 (if neg then - a else a)) else None
   | _ => None
   end.
+
+(* tostring of an integer: optional '-', decimal digits, no leading zero (lua_Integer "%d") *)
+Fixpoint dec_digits (fuel : nat) (a : Z) (acc : list Z) : list Z :=
+  match fuel with
+  | O => acc
+  | S k => if a <? 10 then (48 + a) :: acc else dec_digits k (a / 10) ((48 + a mod 10) :: acc)
+  end.
+Definition int_to_dec (n : Z) : list Z :=
+  if n <? 0 then 45 :: dec_digits 20 (- n) [] else dec_digits 20 n [].
